@@ -197,7 +197,8 @@ def qmat_validation(tier, seed):
     node_types = ['LEGENDRE', 'EQUID', 'CHEBY-1', 'CHEBY-2', 'CHEBY-3', 'CHEBY-4']
     quad_types = ['GAUSS', 'LOBATTO', 'RADAU-LEFT', 'RADAU-RIGHT']
     Ms = range(1, 9) if tier == 'quick' else range(1, 17)
-    intervals = [(0.0, 1.0), (-1.0, 1.0), (-3.25, -1.5), (1000.0, 1000.5)] if tier == 'quick' else [(0.0, 1.0), (-1.0, 1.0), (-3.25, -1.5), (1000.0, 1000.5), (0.0, 1e-3), (-1e4, 2e4)]
+    # several intervals of EQUAL length and different offset follow each other (history: an object built for one interval must not leak into the next)
+    intervals = [(0.0, 1.0), (2.0, 3.0), (-1.0, 1.0), (-3.25, -1.5), (1000.0, 1000.5), (-1.0, 0.0)] if tier == 'quick' else [(0.0, 1.0), (2.0, 3.0), (-1.0, 1.0), (-3.25, -1.5), (1000.0, 1000.5), (-1.0, 0.0), (0.0, 1e-3), (-1e4, 2e4)]
     ref = {}
     for nt in node_types:
         for qt in quad_types:
